@@ -30,7 +30,7 @@ from mc.props import c12_catalogue as CAT
 from mc.runner import Part, Run, pmap
 from ufl.algorithms.signature import compute_terminal_hashdata
 from ufl.classes import BaseFormOperator, Coefficient, Constant, Index, Label, Matrix, MultiIndex
-from ufl.corealg.traversal import traverse_unique_terminals
+from ufl.corealg.traversal import pre_traversal
 from ufl.domain import AbstractDomain
 
 PID = "C12"
@@ -145,22 +145,27 @@ def _norm(t, data):
     return str(data)
 
 
-def trace(form):
-    """Terminal trace: (class name, signature data) of the unique terminals in traversal order."""
+def trace(form, cap=20000):
+    """Pre-order trace of every integrand: operators by class name, terminals with their signature data."""
     integrands = [itg.integrand() for itg in form.integrals()]
     th = compute_terminal_hashdata(integrands, form._compute_renumbering())
     out = []
     for n, e in enumerate(integrands):
-        for t in traverse_unique_terminals(e):
-            out.append([type(t).__name__, _norm(t, th[t])])
+        for t in pre_traversal(e):
+            if t._ufl_is_terminal_:
+                out.append([type(t).__name__, _norm(t, th[t])])
+            else:
+                out.append([type(t).__name__, ""])
+            if len(out) > cap:
+                break
         out.append(["|", str(n)])
     return out
 
 
 def diagnose(ref_trace, cur_trace):
     """Where does the signature input differ: a terminal's own data, or the operand order."""
-    a = sorted(map(tuple, ref_trace))
-    b = sorted(map(tuple, cur_trace))
+    a = sorted(tuple(x) for x in ref_trace if x[1] != "")
+    b = sorted(tuple(x) for x in cur_trace if x[1] != "")
     if a != b:
         sa, sb = list(a), list(b)
         for x in a:
@@ -551,7 +556,17 @@ def main(argv):
                 plan[((c, k),)] = forms
     singles = [s for s in plan if s]
     ran_single = {(s[0][0], s[0][1], n) for s in singles for n in plan[s]}
-    for d in pmap(work_states, [(s, ns, True) for s, ns in plan.items()], seed=run.seed):
+    items = []
+    for st, ns in plan.items():
+        # the rebuild history (same form twice in one process) is run at the zero state and in every
+        # single-counter state for the forms that consume the shifted class
+        rel = [n for n in ns if not st or st[0][0] in support[n]]
+        irr = [n for n in ns if n not in rel]
+        if rel:
+            items.append((st, rel, True))
+        if irr:
+            items.append((st, irr, False))
+    for d in pmap(work_states, items, seed=run.seed):
         run.merge(d)
         for st, n in d["mismatch"]:
             if len(st) == 1:
@@ -652,6 +667,9 @@ def main(argv):
         "hash_seed_derived_from_VERIF_SEED": derived,
         "objects_of_each_counter_class_used_per_form": use,
     }
+    if os.environ.get("VERIF_C12_DUMP_KEYS"):
+        with open(os.environ["VERIF_C12_DUMP_KEYS"], "w") as f:
+            f.write("\n".join(sorted(v["key"] for v in run.violations)) + "\n")
     run.exhaustive = True
     run.assumptions += [
         "the global state relevant to signatures consists of the seven creation counters; this is checked, not "
